@@ -330,7 +330,7 @@ namespace cnl {
             [[nodiscard]] constexpr auto operator()(Lhs const& lhs, Rhs const& rhs) const
             {
                 using traits = operator_overflow_traits<shift_left_op, Lhs, Rhs>;
-                return lhs < 0 ? rhs > 0 ? rhs < traits::positive_digits
+                return lhs < 0 ? rhs > 0 ? rhs <= traits::positive_digits
                                                  ? (lhs >> (traits::positive_digits - rhs)) != -1
                                                  : true
                                          : false
